@@ -106,6 +106,9 @@ func genOp(r *tape.Rand, arity int, nextID *int, wDef, wRem, wCall int) Op {
 	a := make([]int, arity)
 	for i := range a {
 		a[i] = r.Intn(nClasses)
+		if r.Pct(6) {
+			a[i] = nClasses // nil: only a method specialized on t applies
+		}
 	}
 	return Op{K: "call", Args: a}
 }
@@ -200,6 +203,12 @@ func parseTable(s string) table {
 // rank of a specializer for an argument of class arg: position in the class
 // precedence list (c_arg, c_arg-1, ..., c_0, t); -1 if not applicable.
 func rank(spec, arg int) int {
+	if arg == nClasses { // nil
+		if spec == -1 {
+			return 0
+		}
+		return -1
+	}
 	if spec == -1 {
 		return arg + 1
 	}
@@ -447,6 +456,10 @@ func (w *world) source(op Op) string {
 	}
 	var as []string
 	for _, a := range op.Args {
+		if a == nClasses {
+			as = append(as, "nil")
+			continue
+		}
 		as = append(as, w.insts[a])
 	}
 	return fmt.Sprintf("(%s %s)", w.gf, strings.Join(as, " "))
